@@ -179,6 +179,7 @@ func (ord *Order) ValidateWithContext(ctx context.Context) error {
 			currency.CanConvertInto(ord.ExchangeRates, r.GetCurrency()),
 		),
 		validation.Field(&ord.ExchangeRates),
+		validation.Field(&ord.Tax),
 		validation.Field(&ord.Contracts),
 		validation.Field(&ord.Preceding),
 		validation.Field(&ord.Supplier, validation.Required),
